@@ -130,13 +130,13 @@ Section Plume.
         else old
     end.
 
-  Definition plume_paint (g : @globals F) (tape : nat -> F) (sph : bool) (pl : plume_feature) (q : query)
+  Definition plume_paint (g : @globals F) (tape : nat -> F) (sph : bool) (pl : plume_feature) (q : query) (wt : @wtemp F)
              (p : prop_req) (t : nat) (blk : list F) : list F * nat :=
     let rdc := plume_rel_distance pl (plume_point sph pl q) (q_depth q) in
     match p with
     | PTemp => ([fold_left (fun old m => ptemp_eval g pl q rdc m old) (pl_temp pl) (nth 0 blk f0)], t)
     | PComp c =>
-        let '(v, t') := fold_left (fun st m => comp_eval tape sph q m c st) (pl_comp pl) (nth 0 blk f0, t) in ([v], t')
+        let '(v, t') := fold_left (fun st m => comp_eval tape sph q wt m c st) (pl_comp pl) (nth 0 blk f0, t) in ([v], t')
     | PGrains c k => fold_left (fun st m => grains_eval tape sph q m c k st) (pl_grains pl) (blk, t)
     | PTag => ([pl_tag pl], t)
     | PVel =>
@@ -147,7 +147,7 @@ Section Plume.
   Definition plume_to_feature (g : @globals F) (tape : nat -> F) (sph : bool) (pl : plume_feature) : @feature F :=
     {| ft_covers := plume_covers sph pl;
        ft_cov_err := fun _ => false;
-       ft_paint_err := fun _ _ => false;
+       ft_paint_err := fun _ _ _ => false;
        ft_paint := plume_paint g tape sph pl;
        ft_tag := pl_tag pl |}.
 End Plume.
